@@ -238,12 +238,14 @@ impl Process for GenEventManager {
                         if let Some(from_pid) = from
                             && let Some(handle) = self.registry.get(&from_pid).await
                         {
-                            handle
+                            // A caller that is terminating cannot take the reply any more;
+                            // that does not take the manager down.
+                            let _ = handle
                                 .send(Message::Regular {
                                     from: None,
                                     body: OwnedTerm::Atom(Atom::new("ok")),
                                 })
-                                .await?;
+                                .await;
                         }
                         return Ok(());
                     } else if tag == &self.call_tag && elements.len() == 4 {
@@ -266,12 +268,14 @@ impl Process for GenEventManager {
                             ]);
 
                             if let Some(handle) = self.registry.get(from_pid).await {
-                                handle
+                                // A caller that is terminating cannot take the reply any more;
+                                // that does not take the manager down.
+                                let _ = handle
                                     .send(Message::Regular {
                                         from: None,
                                         body: reply_msg,
                                     })
-                                    .await?;
+                                    .await;
                             }
                             return Ok(());
                         }
@@ -289,12 +293,14 @@ impl Process for GenEventManager {
                         ]);
 
                         if let Some(handle) = self.registry.get(from_pid).await {
-                            handle
+                            // A caller that is terminating cannot take the reply any more;
+                            // that does not take the manager down.
+                            let _ = handle
                                 .send(Message::Regular {
                                     from: None,
                                     body: reply_msg,
                                 })
-                                .await?;
+                                .await;
                         }
                         return Ok(());
                     }
